@@ -2,7 +2,7 @@
 import ast
 import math
 
-from ..astutil import dotted, effective, expand_expression_methods, method_call
+from ..astutil import dotted, effective, expand_expression_methods, method_call, stores
 from ..cfg import cfg_of, fact_key, norm, walk_own
 from ..consteval import Scope, fold, fold_in
 from ..flow import one_shot_rules
@@ -169,18 +169,22 @@ def check(ctx):
     okx = want_x in table and table[want_x][0] is not None and tuple(round(v, 9) for v in table[want_x][0]) == (round(math.pi, 9), 0.0, 0.0)
     ctx.inst('R3', df, 'x-negative->flip-about-z', okz, 'x-axis mean mapping to X<0 is corrected by a half turn about Z; table %s' % {k: v[0] for k, v in table.items()})
     ctx.inst('R3', df, 'z-negative->flip-about-x', okx, 'first base station mapping to Z<0 is corrected by a half turn about X; table %s' % {k: v[0] for k, v in table.items()})
-    comps = [n for n in g.nodes if n.kind == 'stmt' and isinstance(n.ast, ast.Assign) and norm(n.ast.targets[0]) == 'transformation' and isinstance(n.ast.value, ast.Call) and
+    rets = [norm(s.value) for s in walk_own(df.node) if isinstance(s, ast.Return)]
+    # the running transform is whatever local is returned (any name): it starts as the raw solution and only flips re-bind it
+    cur = rets[0] if len(set(rets)) == 1 and rets and rets[0].isidentifier() else 'transformation'
+    comps = [n for n in g.nodes if n.kind == 'stmt' and isinstance(n.ast, ast.Assign) and norm(n.ast.targets[0]) == cur and isinstance(n.ast.value, ast.Call) and
              method_call(n.ast.value, 'rotate_translate_pose')]
-    ok = len(comps) == 2 and all([norm(a) for a in n.ast.value.args] == ['transformation'] and norm(n.ast.value.func.value) in [v[1] for v in table.values()] for n in comps)
+    ok = len(comps) == 2 and all([norm(a) for a in n.ast.value.args] == [cur] and norm(n.ast.value.func.value) in [v[1] for v in table.values()] for n in comps)
     for n in comps:
         flipvar = norm(n.ast.value.func.value)
         ok = ok and any(g.dominates(f, n) and norm(f.ast.targets[0]) == flipvar and g.fact_keys_at(f) == g.fact_keys_at(n) for f in flips)
     ctx.inst('R3', df, 'flips-compose-on-the-left', ok, 'each flip F is applied as F.rotate_translate_pose(current transform) under its own test')
     st = {norm(s.targets[0]): norm(s.value) for s in df.node.body if isinstance(s, ast.Assign)}
-    ctx.inst('R3', df, 'references', want_z in table and want_x in table and st.get('transformation') == raw,
+    compsts = {id(n.ast) for n in comps}
+    others = [st_ for t, st_ in stores(df.node) if norm(t) == cur and id(st_) not in compsts and not (isinstance(st_, ast.Assign) and norm(st_.value) == raw)]
+    ctx.inst('R3', df, 'references', want_z in table and want_x in table and st.get(cur) == raw and not others,
              'tests use the mean x-axis sample and the first base station; start from the raw transform')
-    rets = [norm(s.value) for s in walk_own(df.node) if isinstance(s, ast.Return)]
-    ctx.inst('R3', df, 'returns-transform', rets == ['transformation'], 'the (possibly flipped) transform is returned')
+    ctx.inst('R3', df, 'returns-transform', rets == [cur] and len(comps) == 2, 'the (possibly flipped) transform is returned')
 
     # ---- R4: purity ------------------------------------------------------------------------
     for K, names in ((A, ('align', '_find_transformation', '_de_flip_transformation', '_calc_residual')),
